@@ -245,6 +245,50 @@ func c13(p *core.Prog, r *core.Report) {
 			}
 		})
 		okEph = hpStore && ephStore
+		// the address components (ip, port, hostname used for the span's peer
+		// tags) are parsed from the host:port after the substitution: every read
+		// of PeerInfo.HostPort other than the ephemeral test's own argument comes
+		// after that test
+		var ephCall *ssa.Call
+		core.EachInstr(f, func(i ssa.Instruction) {
+			if c, ok := i.(*ssa.Call); ok && ephCall == nil {
+				if o := core.CalleeObj(c); o != nil && o.Name() == "isEphemeralHostPort" {
+					ephCall = c
+				}
+			}
+		})
+		if ephCall != nil {
+			idx := func(i ssa.Instruction) int {
+				for k, x := range i.Block().Instrs {
+					if x == i {
+						return k
+					}
+				}
+				return -1
+			}
+			early, reads := "", 0
+			core.EachInstr(f, func(i ssa.Instruction) {
+				u, ok := i.(*ssa.UnOp)
+				if !ok || u.Op != token.MUL || core.AddrField(u.X) != hpF {
+					return
+				}
+				reads++
+				onlyArg := true
+				for _, ref := range *u.Referrers() {
+					if ref != ssa.Instruction(ephCall) {
+						onlyArg = false
+					}
+				}
+				if onlyArg {
+					return
+				}
+				after := ephCall.Block() == u.Block() && idx(ephCall) < idx(u) || ephCall.Block() != u.Block() && ephCall.Block().Dominates(u.Block())
+				if !after {
+					early = p.Pos(u.Pos())
+				}
+			})
+			r.Check(early == "" && reads >= 2, "C13-R5", fname(f), "host:port is read for the address components only after the ephemeral substitution", p.Pos(f.Pos()), fmt.Sprintf("%d reads of PeerInfo.HostPort, all after isEphemeralHostPort or its argument", reads), "the announced host:port is read at "+early+" before the ephemeral test: an ephemeral peer's address components come from the value it claims, not from its socket")
+		}
 		r.Check(okEph, "C13-R5", fname(f), "ephemeral host:port -> socket address, IsEphemeral = true", p.Pos(f.Pos()), "both stores under isEphemeralHostPort(hostPort)", fmt.Sprintf("ephemeral peers are not re-identified (hostPort=%v flag=%v)", hpStore, ephStore))
 	}
 	if f := mustFunc(p, r, "", "", "isEphemeralHostPort"); f != nil {
